@@ -29,5 +29,9 @@ func main() {
 		fmt.Println("unknown check or tier")
 		os.Exit(2)
 	}
-	f(vf.New(id, tier))
+	c := vf.New(id, tier)
+	if c.IsParent() {
+		c.RunParent() // starts the worker processes, merges, prints the verdict, exits
+	}
+	f(c)
 }
